@@ -430,7 +430,7 @@ Qed.
 (* name lookup yields only what the name table holds, or what a registered handler provides *)
 Theorem names_sound : forall w st n o,
   lookup_name w st n = Some o ->
-  In (n, o) (s_n2r st) \/ (sget n (s_n2r st) = None /\ w_handler w n = Some o).
+  In (n, o) (s_n2r st) \/ (sget n (s_n2r st) = None /\ sget n (s_h st) = Some o).
 Proof.
   intros w st n o. unfold lookup_name. destruct (sget n (s_n2r st)) as [o'|] eqn:E; intros H.
   - inversion H; subst. left. apply sget_In; auto.
@@ -445,7 +445,7 @@ Lemma found_name_lookup w st n :
   end.
 Proof.
   unfold found_name, lookup_name. destruct (sget n (s_n2r st)); [auto|].
-  destruct (w_handler w n); [|auto]. destruct (is_some _); cbn; auto.
+  destruct (sget n (s_h st)); [|auto]. unfold handler_answers_cached. destruct (is_some _); cbn; auto.
 Qed.
 
 (* ------------------------------------------------------------------ invariants of reachable states *)
@@ -546,12 +546,20 @@ Proof. intros [Nx _]. split; [exact Nx|]. cbn. intros ? ? ? []. Qed.
 
 Lemma step_inv w st e st' r log : inv st log -> step w st e = (st', r) -> inv st' (log ++ r_sent r).
 Proof.
-  intros H S. destruct e as [n o sw|o|n cls|c o sw|c req clid m args|c t|c].
+  intros H S. destruct e as [n o sw|o|n cls|n cls em|n o|n| |c o sw|c req clid m args|c t|c].
   - cbn [step] in S. inversion S; subst. cbn [r_sent res0]. apply inv_same_conns with (st := st); [|exact H]. intros c; apply get_assign.
   - cbn [step] in S. inversion S; subst. cbn [r_sent res0]. apply inv_same_conns with (st := st); [|exact H].
     intros c. destruct (zget o (s_r2n st)); [|reflexivity]. destruct (is_some _); destruct c; reflexivity.
   - cbn [step] in S. inversion S; subst. cbn [r_sent res0]. apply inv_same_conns with (st := st); [|exact H].
     intros c. destruct (is_some _); destruct c; reflexivity.
+  - cbn [step] in S.
+    destruct default_registry_test; [|destruct em; [destruct (is_some (sget n (s_copy st)))|]];
+      inversion S; subst; cbn [r_sent res0];
+      first [ rewrite app_nil_r; exact H
+            | apply inv_same_conns with (st := st); [intros c; destruct c; reflexivity | exact H] ].
+  - cbn [step] in S. inversion S; subst. cbn [r_sent res0]. apply inv_same_conns with (st := st); [|exact H]. intros c; destruct c; reflexivity.
+  - cbn [step] in S. inversion S; subst. cbn [r_sent res0]. apply inv_same_conns with (st := st); [|exact H]. intros c; destruct c; reflexivity.
+  - cbn [step] in S. inversion S; subst. cbn [r_sent res0]. apply inv_same_conns with (st := st); [|exact H]. intros c; destruct c; reflexivity.
   - cbn [step] in S. destruct (grant w st c o sw) as [s2 sent] eqn:G. inversion S; subst. cbn [r_sent].
     eapply grant_inv; eauto.
   - destruct (step_msg_shape _ _ _ _ _ _ _ _ _ S) as [[_ [E R]]|[[_ [_ [out [fx [B [Ho [_ F]]]]]]]|[_ [_ [inst [out [O [R E]]]]]]]].
@@ -616,7 +624,7 @@ Proof.
     destruct (negb (c_alive (get_conn st c))); [inversion G; subst; destruct Hin|].
     destruct (match find_obj o (c_exports (get_conn st c)) with Some (k0, rc) => _ | None => _ end) as [[clid rc] nxt].
     inversion G; subst. destruct Hin as [E|[]]. inversion E; subst. auto. }
-  intros w st e st' r c clid o S Hin. destruct e as [n o0 sw|o0|n cls|c0 o0 sw|c0 req clid0 m args|c0 t|c0];
+  intros w st e st' r c clid o S Hin. destruct e as [n o0 sw|o0|n cls|n cls em|n o0|n| |c0 o0 sw|c0 req clid0 m args|c0 t|c0];
     try (cbn [step] in S; inversion S; subst; destruct Hin; fail).
   - cbn [step] in S. destruct (grant w st c0 o0 sw) as [s2 sent] eqn:G. inversion S; subst. cbn [r_sent] in Hin.
     destruct (GS _ _ _ _ _ _ _ _ _ _ G Hin) as [? ?]. subst. left. eexists; reflexivity.
@@ -645,25 +653,25 @@ Qed.
 
 (* ------------------------------------------------------------------ locality *)
 Ltac split_matches :=
-  repeat (cbn [get_conn set_conn set_names set_copy s_n2r s_r2n s_copy s_a s_b fst snd res0 r_inst r_out r_sent
+  repeat (cbn [get_conn set_conn set_names set_copy s_n2r s_r2n s_copy s_h s_a s_b fst snd res0 r_inst r_out r_sent
                 c_alive c_exports c_next drop_conn];
           match goal with
           | |- context [match ?x with _ => _ end] => destruct x eqn:?
           end);
-  cbn [get_conn set_conn set_names set_copy s_n2r s_r2n s_copy s_a s_b fst snd res0 r_inst r_out r_sent
+  cbn [get_conn set_conn set_names set_copy s_n2r s_r2n s_copy s_h s_a s_b fst snd res0 r_inst r_out r_sent
        c_alive c_exports c_next drop_conn]; try reflexivity; try congruence.
 
 Lemma grant_frame w st c c' x o sw : c <> c' ->
   grant w (set_conn st c' x) c o sw = (set_conn (fst (grant w st c o sw)) c' x, snd (grant w st c o sw)).
 Proof.
-  intros NC. destruct st as [n2r r2n cp a b].
+  intros NC. destruct st as [n2r r2n cp hh a b].
   destruct c, c'; try congruence; unfold grant, assign_name; split_matches.
 Qed.
 
 Lemma found_frame w st c' x n :
   found_name w (set_conn st c' x) n =
   match found_name w st n with Some (o, s0) => Some (o, set_conn s0 c' x) | None => None end.
-Proof. destruct st as [n2r r2n cp a b]. destruct c'; unfold found_name; split_matches. Qed.
+Proof. destruct st as [n2r r2n cp hh a b]. destruct c'; unfold found_name; split_matches. Qed.
 
 (* the other connection's table is a frame for everything that does not happen on it: it is neither read nor written *)
 Theorem step_frame : forall w st e c' x,
@@ -671,10 +679,14 @@ Theorem step_frame : forall w st e c' x,
   step w (set_conn st c' x) e = (set_conn (fst (step w st e)) c' x, snd (step w st e)).
 Proof.
   intros w st e c' x NC.
-  destruct e as [n o sw|o|n cls|c o sw|c req clid m args|c t|c]; cbn [on_conn] in NC.
-  - destruct st as [n2r r2n cp a b]. destruct c'; unfold step, assign_name; split_matches.
-  - destruct st as [n2r r2n cp a b]. destruct c'; unfold step; split_matches.
-  - destruct st as [n2r r2n cp a b]. destruct c'; unfold step; split_matches.
+  destruct e as [n o sw|o|n cls|n cls em|n o|n| |c o sw|c req clid m args|c t|c]; cbn [on_conn] in NC.
+  - destruct st as [n2r r2n cp hh a b]. destruct c'; unfold step, assign_name; split_matches.
+  - destruct st as [n2r r2n cp hh a b]. destruct c'; unfold step; split_matches.
+  - destruct st as [n2r r2n cp hh a b]. destruct c'; unfold step; split_matches.
+  - destruct st as [n2r r2n cp hh a b]. destruct c'; unfold step; split_matches.
+  - destruct st as [n2r r2n cp hh a b]. destruct c'; reflexivity.
+  - destruct st as [n2r r2n cp hh a b]. destruct c'; reflexivity.
+  - destruct st as [n2r r2n cp hh a b]. destruct c'; reflexivity.
   - assert (c <> c') by congruence. cbn [step]. rewrite grant_frame by assumption.
     destruct (grant w st c o sw); reflexivity.
   - assert (NE : c <> c') by congruence. cbn [step].
@@ -734,12 +746,17 @@ Qed.
 Lemma copy_found w st n o s0 : found_name w st n = Some (o, s0) -> s_copy s0 = s_copy st.
 Proof. intros H. pose proof (found_name_lookup w st n) as F. rewrite H in F. tauto. Qed.
 
-Lemma step_copy w st e : (forall n cls, e <> RegisterCopy n cls) -> s_copy (fst (step w st e)) = s_copy st.
+Lemma step_copy w st e : (forall n cls, e <> RegisterCopy n cls) /\ (forall n cls em, e <> RegisterCopyPriv n cls em) ->
+  s_copy (fst (step w st e)) = s_copy st.
 Proof.
-  intros NR. destruct e as [n o sw|o|n cls|c o sw|c req clid m args|c t|c]; cbn [step].
+  intros [NR NP]. destruct e as [n o sw|o|n cls|n cls em|n o|n| |c o sw|c req clid m args|c t|c]; cbn [step].
   - cbn [fst]. apply copy_assign.
   - cbn [fst]. destruct (zget o (s_r2n st)); [|reflexivity]. destruct (is_some _); reflexivity.
   - exfalso. eapply NR; reflexivity.
+  - exfalso. eapply NP; reflexivity.
+  - reflexivity.
+  - reflexivity.
+  - reflexivity.
   - pose proof (copy_grant w st c o sw) as G. destruct (grant w st c o sw). exact G.
   - destruct (negb (c_alive (get_conn st c))); [reflexivity|].
     destruct (clid =? broker_clid).
@@ -764,7 +781,7 @@ Proof.
   - symmetry. apply step_other_conn. intros E.
     destruct e; cbn [on_conn] in E; try discriminate; inversion E; subst;
       cbn [relevant on_conn] in R; rewrite (proj2 (cid_eqb_eq c c) eq_refl) in R; discriminate.
-  - symmetry. apply step_copy. intros n cls E. subst e. discriminate.
+  - symmetry. apply step_copy. split; [intros n cls E | intros n cls em E]; subst e; discriminate.
 Qed.
 
 Lemma grant_local w s1 s2 c o sw : get_conn s1 c = get_conn s2 c ->
@@ -798,8 +815,15 @@ Proof.
   assert (ON : forall c0, on_conn e = Some c0 -> c0 = c).
   { intros c0 E. unfold relevant in R. destruct e; cbn [on_conn] in E; try discriminate; inversion E; subst;
       symmetry; apply cid_eqb_eq; exact R. }
-  destruct e as [n o sw|o|n cls|c0 o sw|c0 req clid m args|c0 t|c0]; try discriminate.
+  destruct e as [n o sw|o|n cls|n cls em|n o|n| |c0 o sw|c0 req clid m args|c0 t|c0]; try discriminate.
   - (* RegisterCopy *) cbn [step]. rewrite EK. destruct (is_some (sget n (s_copy s2))); cbn [fst snd].
+    + split; [split; auto | reflexivity].
+    + split; [|reflexivity]. split.
+      * destruct c; cbn [get_conn set_copy s_a s_b] in *; exact EC.
+      * cbn [set_copy s_copy]. rewrite ?EK. reflexivity.
+  - (* RegisterCopyPriv *) cbn [step]. destruct default_registry_test; cbn [fst snd]; [split; [split; auto | reflexivity]|].
+    destruct em; [|split; [split; auto | reflexivity]].
+    rewrite EK. destruct (is_some (sget n (s_copy s2))); cbn [fst snd].
     + split; [split; auto | reflexivity].
     + split; [|reflexivity]. split.
       * destruct c; cbn [get_conn set_copy s_a s_b] in *; exact EC.
@@ -875,10 +899,13 @@ Qed.
 Lemma copy_origin_step w st e : forall n cls,
   In (n, cls) (s_copy (fst (step w st e))) -> In (n, cls) (s_copy st) \/ e = RegisterCopy n cls.
 Proof.
-  intros n cls Hin. destruct e as [n0 o sw|o|n0 cls0|c o sw|c req clid m args|c t|c];
-    try (left; rewrite step_copy in Hin by (intros; discriminate); exact Hin).
-  cbn [step fst] in Hin. destruct (is_some (sget n0 (s_copy st))); [left; exact Hin|].
-  cbn [set_copy s_copy] in Hin. apply In_sset in Hin. destruct Hin as [E|Hin]; [right; inversion E; reflexivity | left; exact Hin].
+  intros n cls Hin. destruct e as [n0 o sw|o|n0 cls0|n0 cls0 em|n0 o|n0| |c o sw|c req clid m args|c t|c];
+    try (left; rewrite step_copy in Hin by (split; intros; discriminate); exact Hin).
+  - cbn [step fst] in Hin. destruct (is_some (sget n0 (s_copy st))); [left; exact Hin|].
+    cbn [set_copy s_copy] in Hin. apply In_sset in Hin. destruct Hin as [E|Hin]; [right; inversion E; reflexivity | left; exact Hin].
+  - (* a registration into a private registry never reaches the registry peers can name: this is where the translated
+       default-registry test (`registry == None`) is used *)
+    left. cbn [step fst] in Hin. unfold default_registry_test in Hin. exact Hin.
 Qed.
 
 Theorem copy_origin : forall w h st n cls,
@@ -901,12 +928,99 @@ Proof.
   - destruct H as [E|H]; [inversion E; left; reflexivity | right; eapply IH; eauto].
 Qed.
 
+(* ------------------------------------------------------------------ where name-table entries come from *)
+Definition names_event (n : string) (o : Z) (e : event) : Prop :=
+  match e with
+  | Register p o' sw => o' = o /\ n = (if str_empty p then sw else p)     (* registerReference *)
+  | Grant _ o' sw => o' = o /\ n = sw                                      (* first send: getOrCreateURLForReference *)
+  | Msg _ _ clid (MStr m) _ => n = ""%string /\ clid = broker_clid /\ m = "getReferenceByName"%string
+       (* the reference sent back by a lookup: the object already has a name in every run observed; the model's
+          placeholder for the swissnum it would otherwise draw is the empty string *)
+  | _ => False
+  end.
+
+Lemma n2r_set_conn st c x : s_n2r (set_conn st c x) = s_n2r st.
+Proof. destruct c; reflexivity. Qed.
+
+Lemma assign_n2r st o p sw n o' :
+  In (n, o') (s_n2r (assign_name st o p sw)) -> In (n, o') (s_n2r st) \/ (o = o' /\ n = (if str_empty p then sw else p)).
+Proof.
+  unfold assign_name. destruct (zget o (s_r2n st)); [auto|]. cbn [set_names s_n2r]. intros H.
+  apply In_sset in H. destruct H as [E|H]; [right; inversion E; auto | left; exact H].
+Qed.
+
+Lemma grant_n2r w st c o sw n o' :
+  In (n, o') (s_n2r (fst (grant w st c o sw))) -> In (n, o') (s_n2r st) \/ (o = o' /\ n = sw).
+Proof.
+  unfold grant. destruct (negb (c_alive (get_conn st c))); [auto|].
+  destruct (match find_obj o (c_exports (get_conn st c)) with Some (k, rc) => _ | None => _ end) as [[clid rc] nxt].
+  destruct (rc + tracker_send_incr =? 1); cbn [fst]; intros H.
+  - apply assign_n2r in H. rewrite n2r_set_conn in H. cbn [str_empty] in H. exact H.
+  - rewrite n2r_set_conn in H. auto.
+Qed.
+
+Lemma names_origin_step w st e n o :
+  In (n, o) (s_n2r (fst (step w st e))) -> In (n, o) (s_n2r st) \/ names_event n o e.
+Proof.
+  destruct e as [p o' sw|o'|n0 cls|n0 cls em|n0 o'|n0| |c o' sw|c req clid m args|c t|c]; cbn [names_event].
+  - cbn [step fst]. apply assign_n2r.
+  - cbn [step fst]. intros H. left. destruct (zget o' (s_r2n st)); [|exact H].
+    destruct (is_some _); [|exact H]. cbn [set_names s_n2r] in H. eapply In_sdel; eauto.
+  - cbn [step fst]. intros H. left. destruct (is_some _); exact H.
+  - cbn [step fst]. intros H. left. destruct default_registry_test; [exact H|]. destruct em; [|exact H]. destruct (is_some _); exact H.
+  - cbn [step fst]. auto.
+  - cbn [step fst]. auto.
+  - cbn [step fst]. auto.
+  - cbn [step]. pose proof (grant_n2r w st c o' sw n o) as G. destruct (grant w st c o' sw). cbn [fst] in *. exact G.
+  - destruct (step w st (Msg c req clid m args)) as [st' r] eqn:S. cbn [fst]. intros H.
+    destruct (step_msg_shape _ _ _ _ _ _ _ _ _ S) as [[_ [E R]]|[[_ [BC [out [fx [B [Ho [_ F]]]]]]]|[_ [_ [inst [out [O [R E]]]]]]]].
+    + subst. auto.
+    + destruct fx as [| |nm|k0 cnt0].
+      * destruct F as [E _]. subst. auto.
+      * destruct F as [E _]. subst. rewrite n2r_set_conn in H. auto.
+      * pose proof (found_name_lookup w st nm) as FN. apply broker_call_lookup in B. subst m.
+        destruct (found_name w st nm) as [[o1 st0]|].
+        -- destruct FN as [_ [EN _]]. destruct (req =? 0).
+           ++ destruct F as [E _]. subst. rewrite EN in H. auto.
+           ++ pose proof (grant_n2r w st0 c o1 "" n o) as G. rewrite F in G. cbn [fst] in G.
+              destruct (G H) as [G1|[_ G2]]; [left; rewrite <- EN; exact G1 | right; auto].
+        -- destruct F as [E _]. subst. auto.
+      * destruct F as [E _]. subst. rewrite n2r_set_conn in H. auto.
+    + subst st'. left. destruct out; try exact H. rewrite n2r_set_conn in H. exact H.
+  - cbn [step fst]. auto.
+  - cbn [step fst]. rewrite n2r_set_conn. auto.
+Qed.
+
+(* every entry of the name table was put there by registerReference or by the first send of the object: in particular a
+   name that only a lookup handler ever answered is never in the table, so it stops resolving when the handler stops *)
+Theorem names_origin : forall w h st n o,
+  In (n, o) (s_n2r (fst (run w st h))) -> In (n, o) (s_n2r st) \/ exists e, In e h /\ names_event n o e.
+Proof.
+  intros w h. induction h as [|e h IH]; intros st n o H.
+  - cbn in H. auto.
+  - cbn [run] in H. pose proof (names_origin_step w st e n o) as S.
+    destruct (step w st e) as [st1 x]. specialize (IH st1 n o).
+    destruct (run w st1 h) as [st2 xs]. cbn [fst] in *.
+    destruct (IH H) as [H1|[e' [He' Ne']]].
+    + destruct (S H1) as [H2|H2]; [left; exact H2 | right; exists e; split; [left; reflexivity | exact H2]].
+    + right. exists e'. split; [right; exact He' | exact Ne'].
+Qed.
+
+Theorem revoked_name_refused : forall w h st n,
+  st = fst (run w init h) -> n <> ""%string ->
+  (forall e, In e h -> forall o, ~ names_event n o e) -> sget n (s_h st) = None ->
+  lookup_name w st n = None.
+Proof.
+  intros w h st n E NE NN HS. unfold lookup_name. destruct (sget n (s_n2r st)) as [o|] eqn:G; [|exact HS].
+  exfalso. apply sget_In in G. subst st. destruct (names_origin w h init n o G) as [[]|[e [He Ne]]].
+  eapply NN; eauto.
+Qed.
+
 (* ------------------------------------------------------------------ non-vacuity: the hypotheses above are met by real runs *)
 Definition ex_world : world :=
   {| w_obj := fun o => if o =? 1 then {| o_kind := KObj; o_attrs := ["remote_hi"; "secret"]%string; o_iface := None |}
                        else if o =? 2 then {| o_kind := KObj; o_attrs := ["remote_hi"; "remote_x"]%string; o_iface := Some ["hi"%string] |}
-                       else {| o_kind := KCallable; o_attrs := []; o_iface := None |};
-     w_handler := fun n => if String.eqb n "dyn" then Some 2 else None |}.
+                       else {| o_kind := KCallable; o_attrs := []; o_iface := None |} |}.
 Definition ex_hist : list event :=
   [Register "pub" 2 "sw0"; RegisterCopy "my.rc" 7; Grant CA 1 "sw0"; Grant CB 3 "sw1";
    Msg CA 1 1 (MStr "hi") [ACopyable "my.rc"; AYourRef 0; AOpen "list"];      (* enters remote_hi of 1, instantiates 7 *)
